@@ -87,6 +87,9 @@ pub enum Act {
     Undef(Name, u8),
     UseI(Name, u8),
     UseD(Name, u8),
+    /// a new code segment starts here (`.cseg` again, or `.org` to the current position):
+    /// symbols are program-wide, so nothing changes for the model
+    NewSegment(u8),
 }
 
 #[derive(Clone, PartialEq, Eq, Hash, Debug)]
@@ -101,6 +104,8 @@ pub struct St {
     /// a reference that can never resolve (set before assignment, alias outside its scope)
     dead: bool,
     words: u8,
+    /// the current segment is still empty (hidden-state relevant only)
+    fresh_segment: bool,
 }
 
 #[derive(Clone)]
@@ -110,10 +115,14 @@ impl RefModel for SymModel {
     type State = St;
     type Action = Act;
     fn init(&self) -> St {
-        St { labels: BTreeSet::new(), dup_label: false, equ: false, set: None, defs: BTreeSet::new(), pending: BTreeSet::new(), dead: false, words: 0 }
+        St { labels: BTreeSet::new(), dup_label: false, equ: false, set: None, defs: BTreeSet::new(), pending: BTreeSet::new(), dead: false, words: 0, fresh_segment: true }
     }
     fn actions(&self, s: &St) -> Vec<Act> {
         let mut v = vec![];
+        if !s.fresh_segment {
+            v.push(Act::NewSegment(0));
+            v.push(Act::NewSegment(1));
+        }
         for c in 0..3u8 {
             v.push(Act::Label(Name::LabA, c));
             v.push(Act::Label(Name::LabB, c));
@@ -163,7 +172,9 @@ impl RefModel for SymModel {
                 }
             }
         };
+        n.fresh_segment = matches!(a, Act::NewSegment(_));
         match a {
+            Act::NewSegment(_) => {}
             Act::Label(l, _) => {
                 if !n.labels.insert(*l) {
                     n.dup_label = true;
@@ -230,6 +241,7 @@ pub fn expect(trace: &[Act]) -> Expected {
             _ => {}
         }
     }
+    // a segment directive with nothing after it in the trace is harmless
     if equ > 1 {
         return Expected::Unpinned;
     }
@@ -254,6 +266,7 @@ pub fn expect(trace: &[Act]) -> Expected {
             }
         };
         match a {
+            Act::NewSegment(_) => {}
             Act::Label(..) => code.extend([0xa1, 0xaa]),
             Act::Equ(_) => {}
             Act::Set(v, _) => set = Some(*v),
@@ -306,8 +319,16 @@ pub fn expect(trace: &[Act]) -> Expected {
 
 pub fn render(trace: &[Act]) -> String {
     let mut s = String::new();
+    let mut words = 0;
     for (i, a) in trace.iter().enumerate() {
         match a {
+            Act::Label(..) | Act::UseI(..) | Act::UseD(..) => words += 1,
+            _ => {}
+        }
+        match a {
+            Act::NewSegment(0) => s.push_str(".cseg\n"),
+            // words counts the item of this line too, but NewSegment emits none
+            Act::NewSegment(_) => s.push_str(&format!(".org {}\n", words)),
             Act::Label(l, c) => s.push_str(&format!("{}: .dw 0xaaa1\n", spell(*l, *c))),
             Act::Equ(c) => s.push_str(&format!(".equ {} = {}\n", spell(Name::EquA, *c), EQU_VALUE)),
             Act::Set(v, c) => s.push_str(&format!(".set {} = {}\n", spell(Name::SetA, *c), v)),
@@ -333,6 +354,10 @@ fn features(trace: &[Act]) -> String {
     let mut def_cases: BTreeMap<Name, BTreeSet<u8>> = BTreeMap::new();
     let mut case_differs = false;
     for a in trace {
+        if let Act::NewSegment(_) = a {
+            kinds.insert("new-segment");
+            continue;
+        }
         let (n, c) = match a {
             Act::Label(n, c) | Act::Def(n, c) | Act::Undef(n, c) | Act::UseI(n, c) | Act::UseD(n, c) => (*n, *c),
             Act::Equ(c) => (Name::EquA, *c),
@@ -341,6 +366,7 @@ fn features(trace: &[Act]) -> String {
                 case_differs = true;
                 (Name::SetA, *c)
             }
+            Act::NewSegment(_) => continue,
         };
         kinds.insert(n.kind());
         def_cases.entry(n).or_default().insert(c % 3);
@@ -461,7 +487,7 @@ pub fn run(tier: Tier) -> i32 {
         "traces_validated_against_impl": traces,
         "single_symbol_mutations_validated": n_mut.load(Ordering::Relaxed),
         "state_cover_size": ex.states,
-        "bound": {"N1_model_depth": n1, "k_extension": k, "alphabet": 66},
+        "bound": {"N1_model_depth": n1, "k_extension": k, "alphabet": 68},
         "exhaustive": true,
         "caps_hit": [],
         "distinct_observed_outcomes": distinct,
